@@ -406,7 +406,7 @@ pub fn strategy() -> impl Strategy<Value = Case> {
 
 pub fn run(ctx: &Ctx) -> Report {
     let mut rep = Report::new();
-    pt_run(ctx, "c11", ctx.n(60000, 2000000), strategy, check, &mut rep);
+    pt_run(ctx, "c11", ctx.n(60000, 20000000), strategy, check, &mut rep);
     // deterministic sweep: every field x every selector value on a fixed honest base
     let base = Base { n1: 7, n2: 3, steps: vec![4, 4, 3], log_last: 7, cosets: 2, nvf: 100, queries: 10, pow: 30, slack: 0 };
     let mut jobs = Vec::new();
